@@ -100,7 +100,7 @@ func vpH_C18_unique() {
 			} else if i < 0 {
 				vpAssert(len(fwd) == 1 && len(rep) == 0, "C18.unique-unseen-forwarded")
 				if len(fwd) == 1 {
-					vpAssert(vpSameObject(fwd[0], msg), "C18.unique-forward-unchanged")
+					vpAssert(vpUnchanged(fwd[0], msg), "C18.unique-forward-unchanged")
 				}
 			}
 			// an id seen earlier but outside the window may go either way per the statement
@@ -114,7 +114,7 @@ func vpH_C18_unique() {
 			} else if i < 0 {
 				vpAssert(len(out) == 1, "C18.unique-send-unseen-delivered")
 				if len(out) == 1 {
-					vpAssert(vpSameObject(out[0], msg), "C18.unique-send-unchanged")
+					vpAssert(vpUnchanged(out[0], msg), "C18.unique-send-unchanged")
 				}
 			}
 		}
